@@ -629,6 +629,13 @@ def mix_profile(env, quant=True):
     p.leaf(USORT, s)
     p.leaf(AIB, M, m.Array(mk_type(env, INT), m.FALSE()))
     p.leaf(ASI, m.Array(mk_type(env, USORT), m.Int(0)))
+    # custom sorts T, U that occur only inside array sorts (no symbol, signature or binder of sort T / U)
+    AIT = ("Array", INT, ("Sort", "T", ()))
+    AIAU = ("Array", INT, ("Array", ("Sort", "U", ()), INT))
+    p.leaf(AIT, p.sym("N1", AIT), p.sym("N2", AIT))
+    p.leaf(AIAU, p.sym("K1", AIAU), p.sym("K2", AIAU))
+    p.op("eqT", [AIT, AIT], BOOL, lambda m, a, b: m.Equals(a, b))
+    p.op("eqU", [AIAU, AIAU], BOOL, lambda m, a, b: m.Equals(a, b))
     p.op("not", [BOOL], BOOL, lambda m, a: m.Not(a))
     p.op("and", [BOOL, BOOL], BOOL, lambda m, a, b: m.And(a, b))
     p.op("iff", [BOOL, BOOL], BOOL, lambda m, a, b: m.Iff(a, b))
